@@ -9,6 +9,12 @@ Tie (DESIGN §6 C15):
  2. exhaustive classification (ordermin / ordermax / check_interfaces / get_start_point /
     get_end_point) over a 5-level alphabet up to length 6 for several interface triples
     (ordered, with equal members, unordered), plus short / empty interface lists;
+ 2b. multi-step histories on ONE Path object: build → classify (ordermin / ordermax / check_interfaces /
+    success / get_start_point / get_end_point) → change it in place without changing its length (order
+    re-assignment on a frame, frame replacement, the extender idiom `phasepoints[:-1] + seg`, `+=` /
+    append then delete, reverse() / copy() of a classified path) → classify again; every answer is
+    compared with the Lean model on the CURRENT frames and with the extreme values of the current
+    order list (C15:stale-classification when the object answers differently from a fresh path);
  3. the property predicates are evaluated directly on the real objects while a program runs
     (paste length / order / head / time origin; reverse order / flags / twice; mutate a copy →
     nothing else changes; classification vs min / max of the sequence).
@@ -150,7 +156,60 @@ def op_tokens(op):
         return f"seti {op[1]} {op[2]} {op[3]}"
     if k == "pset":
         return f"pset {op[1]} {op[2]} {opt(op[3]) if op[2] in ('maxlen', 'generated', 'pathnum', 'weights') else op[3]}"
+    if k == "classify":
+        return f"classify {op[1]} {op[2]} " + lst(op[3])
+    if k == "repl":
+        return f"repl {op[1]} {op[2]} {op[3]} {op[4]}"
+    if k == "ext":
+        return f"ext {op[1]} {op[2]}"
+    if k == "del":
+        return f"del {op[1]} {op[2]}"
     raise KeyError(k)
+
+
+def classify_obj(p, intf, target):
+    """every classification method of the path object, canonical text (= Infretis.PathAlg.showCls)"""
+    def vi(get):
+        try:
+            v, i = get()
+            return f"{int(v)},{int(i)}"
+        except Exception as e:  # noqa: BLE001
+            return err_kind(e)
+    try:
+        s, e, m, c = p.check_interfaces([float(x) for x in intf])
+        chk = f"{s},{e},{m}," + ("".join("1" if b else "0" for b in c) if c else "-")
+    except Exception as ex:  # noqa: BLE001
+        chk = err_kind(ex)
+    try:
+        suc = str(bool(p.success(float(target))))
+    except Exception as ex:  # noqa: BLE001
+        suc = err_kind(ex)
+    sp = ep = "-"
+    if intf:
+        try:
+            sp = str(p.get_start_point(float(intf[0]), float(intf[-1])))
+        except Exception as ex:  # noqa: BLE001
+            sp = err_kind(ex)
+        try:
+            ep = str(p.get_end_point(float(intf[0]), float(intf[-1])))
+        except Exception as ex:  # noqa: BLE001
+            ep = err_kind(ex)
+    return f"min={vi(lambda: p.ordermin)};max={vi(lambda: p.ordermax)};chk={chk};suc={suc};sp={sp};ep={ep}"
+
+
+def expected_parts(ops, intf, target):
+    """what the property demands of a classification of the order sequence `ops` (non-empty): only the
+    parts the property speaks about are returned"""
+    lo, hi = min(ops), max(ops)
+    want = {"min": f"{lo},{ops.index(lo)}", "max": f"{hi},{ops.index(hi)}", "suc": str(any(x > target for x in ops))}
+    if len(intf) >= 2:
+        _, _, chk = want_cls(list(ops), list(intf))
+        want["chk"] = f"{chk[0]},{chk[1]},{chk[2]}," + "".join("1" if b else "0" for b in chk[3])
+    if intf and intf[0] <= intf[-1]:
+        l, r = intf[0], intf[-1]
+        want["sp"] = "L" if ops[0] <= l else "R" if ops[0] >= r else "?"
+        want["ep"] = "L" if ops[-1] <= l else "R" if ops[-1] >= r else "None"
+    return want
 
 
 # --------------------------------------------------------------------------- the real machine
@@ -164,6 +223,7 @@ class Real:
         self.fails = []      # (signature, what)
         self.check = check
         self.branches = []
+        self.classified = set()
 
     # ---- dump with canonical identities
     def state(self):
@@ -181,7 +241,7 @@ class Real:
         return " ; ".join(toks)
 
     def line(self):
-        return ",".join(self.log) + " | " + self.state()
+        return " ".join(self.log) + " | " + self.state()
 
     def bad(self, sig, what):
         self.fails.append((sig, what))
@@ -387,6 +447,42 @@ class Real:
                 return self.log.append("skip")
             set_pfield(P[op[1]], op[2], op[3])
             self.log.append("pset")
+        elif k == "classify":
+            if not ok(op[1]):
+                return self.log.append("skip")
+            p, target, intf = P[op[1]], op[2], list(op[3])
+            got = classify_obj(p, intf, target)
+            self.log.append(got)
+            if self.check and p.phasepoints and all(len(s.order) > 0 for s in p.phasepoints):
+                ops = [int(s.order[0]) for s in p.phasepoints]
+                want = expected_parts(ops, intf, target)
+                parts = dict(x.split("=", 1) for x in got.split(";"))
+                bad = [k_ for k_, w in want.items() if parts[k_] != w]
+                self.branches.append("classify:repeat" if id(p) in self.classified else "classify:first")
+                if bad:
+                    fresh = classify_obj(mk(self.Path, self.System, ops), intf, target)
+                    sig = "C15:stale-classification" if fresh != got else "C15:classification-vs-extremes"
+                    self.bad(sig, f"path object holding orders {ops} answers {got} for interfaces {intf}, target {target}; "
+                             f"the current order list demands " + ";".join(f"{k_}={want[k_]}" for k_ in bad)
+                             + (f" (a fresh path with the same orders answers {fresh})" if fresh != got else ""))
+            self.classified.add(id(p))
+        elif k == "repl":
+            if not (ok(op[1]) and ok(op[3]) and 0 <= op[2] < len(P[op[1]].phasepoints)
+                    and 0 <= op[4] < len(P[op[3]].phasepoints)):
+                return self.log.append("skip")
+            P[op[1]].phasepoints[op[2]] = P[op[3]].phasepoints[op[4]]
+            self.log.append("repl")
+        elif k == "ext":
+            if not (ok(op[1]) and ok(op[2])):
+                return self.log.append("skip")
+            p, q = P[op[1]], P[op[2]]
+            p.phasepoints = p.phasepoints[:-1] + q.phasepoints
+            self.log.append("ext")
+        elif k == "del":
+            if not (ok(op[1]) and 0 <= op[2] < len(P[op[1]].phasepoints)):
+                return self.log.append("skip")
+            del P[op[1]].phasepoints[op[2]]
+            self.log.append("del")
         else:
             raise KeyError(k)
         return None
@@ -439,6 +535,105 @@ def rand_field(rng):
 
 
 MAXLENS = (None, None, 100, 100, 8, 5, 3, 2, 1, 0)
+INTFS = ((0, 1, 2), (0, 2, 4), (0, 2, 2), (0, 0, 2), (1, 1, 1), (2, 0, 1), (0, 3, 1), (-1, 1, 3), (0, 2), (1,), ())
+
+
+def rand_intf(rng):
+    return list(rng.choice(INTFS[:8] if rng.random() < 0.9 else INTFS))
+
+
+def plain_vals(o, idx=0):
+    return {"config": (0, idx), "order": [o], "velrev": False, "ekin": None, "vpot": None,
+            "pos": o, "vel": 1, "box": 1, "temp": 0}
+
+
+def gen_history(rng):
+    """ONE path object (index 0) is classified, changed in place, and classified again, several times.
+    paths 1 (1–3 frames) and 2 (exactly one frame) are donors for replacement / extension / +=."""
+    prog = [("new", rng.choice((None, 100)), 0), ("new", None, 0), ("new", None, 0)]
+    n = rng.randint(1, 5)
+    for k in range(n):
+        prog.append(("sys", 0, plain_vals(rng.randint(-1, 4), k)))
+    nd = rng.randint(1, 3)
+    for k in range(nd):
+        prog.append(("sys", 1, plain_vals(rng.randint(-1, 4), 10 + k)))
+    prog.append(("sys", 2, plain_vals(rng.randint(-1, 4), 20)))
+    npaths = 3
+
+    def cls(i):
+        prog.append(("classify", i, rng.randint(-1, 4), rand_intf(rng)))
+    cls(0)
+    for _ in range(rng.randint(2, 6)):
+        kind = rng.choice(("set", "set", "set", "repl", "repl", "ext1", "ext1", "rev", "copy", "iadd-del", "app-del",
+                           "seti", "donor-set", "ext", "del-app"))
+        if kind == "set":
+            prog.append(("set", 0, rng.randrange(n), "order", [rng.randint(-1, 4)]))
+        elif kind == "seti":
+            prog.append(("seti", 0, rng.randrange(n), rng.randint(-1, 4)))
+        elif kind == "repl":
+            j = rng.choice((1, 2))
+            prog.append(("repl", 0, rng.randrange(n), j, rng.randrange(nd) if j == 1 else 0))
+        elif kind == "donor-set":   # a shared frame changes through the donor
+            prog.append(("repl", 0, rng.randrange(n), 2, 0))
+            cls(0)
+            prog.append(("set", 2, 0, "order", [rng.randint(-1, 4)]))
+        elif kind == "ext1":        # tis.extender with a one-frame forward segment: same length
+            prog.append(("set", 2, 0, "order", [rng.randint(-1, 4)]))
+            prog.append(("ext", 0, 2))
+        elif kind == "ext":
+            prog.append(("ext", 0, 1))
+            n = n - 1 + nd
+        elif kind == "rev":
+            of = None if rng.random() < 0.5 else (1, rng.randint(1, 2), 0, True)
+            prog.append(("rev", 0, of, True))
+            cls(npaths)
+            npaths += 1
+        elif kind == "copy":
+            prog.append(("copy", 0))
+            cls(npaths)
+            prog.append(("set", npaths, rng.randrange(n), "order", [rng.randint(-1, 4)]))
+            cls(npaths)
+            npaths += 1
+        elif kind == "iadd-del":    # grow by += then delete back to the old length (other frames removed)
+            prog.append(("iadd", 0, 1))
+            for _k in range(nd):
+                prog.append(("del", 0, rng.randrange(n)))
+        elif kind == "app-del":
+            prog.append(("app", 0, 1, rng.randrange(nd)))
+            prog.append(("del", 0, rng.randrange(n)))
+        elif kind == "del-app":
+            if n > 1:
+                prog.append(("del", 0, rng.randrange(n)))
+                cls(0)
+                prog.append(("sys", 0, plain_vals(rng.randint(-1, 4), 30)))
+        cls(0)
+    return prog
+
+
+def systematic_histories(maxlen):
+    """every order sequence up to `maxlen` over 5 levels: classify, re-assign one frame's order / replace one
+    frame / swap the end frame extender-style, classify again (same length throughout)"""
+    levels = (-1, 0, 1, 2, 3)
+    for L in range(1, maxlen + 1):
+        for ops in itertools.product(levels, repeat=L):
+            base = [("new", None, 0), ("new", None, 0)] + [("sys", 0, plain_vals(o, k)) for k, o in enumerate(ops)]
+            for k in range(L):
+                for v in levels:
+                    if v == ops[k]:
+                        continue
+                    how = (k + v + L) % 3
+                    prog = list(base) + [("sys", 1, plain_vals(v, 9)), ("classify", 0, 1, [0, 1, 2])]
+                    if how == 0:
+                        prog.append(("set", 0, k, "order", [v]))
+                    elif how == 1:
+                        prog.append(("repl", 0, k, 1, 0))
+                    elif k == L - 1:
+                        prog.append(("ext", 0, 1))
+                    else:
+                        prog.append(("seti", 0, k, v))
+                    prog.append(("classify", 0, 1, [0, 1, 2]))
+                    prog.append(("classify", 0, 2, [0, 2, 2]))
+                    yield prog
 
 
 def gen_program(rng, nops):
@@ -470,7 +665,7 @@ def gen_program(rng, nops):
         if rng.random() < 0.03:
             i = n + rng.randint(0, 2)   # ill-formed
         kind = rng.choice(("paste", "paste", "paste", "rev", "rev", "copy", "copy", "iadd", "iadd", "app", "sys",
-                           "set", "set", "seti", "pset", "new"))
+                           "set", "set", "seti", "pset", "new", "classify", "classify", "classify", "repl", "ext", "del"))
         if kind == "new":
             ml = rng.choice(MAXLENS)
             prog.append(("new", ml, rng.randint(-5, 5)))
@@ -526,6 +721,21 @@ def gen_program(rng, nops):
         elif kind == "seti":
             k = rng.randrange(lens[i]) if i < n and lens[i] and rng.random() < 0.97 else rng.randint(0, 6)
             prog.append(("seti", i, k, rng.randint(5, 9)))
+        elif kind == "classify":
+            prog.append(("classify", i, rng.randint(-1, 4), rand_intf(rng)))
+        elif kind == "repl":
+            k = rng.randrange(lens[i]) if i < n and lens[i] and rng.random() < 0.95 else rng.randint(0, 6)
+            l = rng.randrange(lens[j]) if lens[j] and rng.random() < 0.95 else rng.randint(0, 6)
+            prog.append(("repl", i, k, j, l))
+        elif kind == "ext":
+            prog.append(("ext", i, j))
+            if i < n:
+                lens[i] = max(lens[i] - 1, 0) + lens[j]
+        elif kind == "del":
+            k = rng.randrange(lens[i]) if i < n and lens[i] and rng.random() < 0.95 else rng.randint(0, 6)
+            prog.append(("del", i, k))
+            if i < n and k < lens[i]:
+                lens[i] -= 1
         elif kind == "pset":
             f = rng.choice(PFIELDS)
             if f == "maxlen":
@@ -623,8 +833,11 @@ def run(ctx):
     rng = ctx.rng
     import logging
     logging.getLogger("infretis.classes.path").setLevel(logging.ERROR)
-    ctx.rule = ("op programs: prelude (1–3 paths × 0–5 frames) + ≤12 random ops; non-trivial = the program contains "
-                "a paste/reverse/copy/iadd on a non-empty path; distinct by the program's token line. Classification: "
+    ctx.rule = ("op programs: prelude (1–3 paths × 0–5 frames) + ≤12 random ops (incl. classify / replace frame / "
+                "extender slice+concat / delete); histories on one Path object: classify → in-place change → classify "
+                "(random, and systematic over all sequences ≤3 (thorough 4) × position × new value); non-trivial = the "
+                "program contains a paste/reverse/copy/iadd/classify on a non-empty path; distinct by the program's "
+                "token line. Classification: "
                 "every sequence over a 5-level alphabet up to length 6 × interface triples; non-trivial = non-empty "
                 "sequence; distinct by (interfaces, sequence).")
     have_model = ctx._driver_ok
@@ -632,6 +845,8 @@ def run(ctx):
     # ---- 1. op programs
     nprog = 4000 if ctx.quick else 60000
     progs = [gen_program(rng, rng.randint(1, 12)) for _ in range(nprog)]
+    progs += [gen_history(rng) for _ in range(2500 if ctx.quick else 40000)]
+    progs += list(systematic_histories(3 if ctx.quick else 4))
     lines, code_out = [], []
     shrunk = set()
     for prog in progs:
@@ -642,8 +857,8 @@ def run(ctx):
         for b in m.branches:
             ctx.hit("op:" + b)
         for tok in m.log:
-            ctx.hit("log:" + tok)
-        if any(b.split(":")[0] in ("paste", "rev", "copy", "iadd") for b in m.branches):
+            ctx.hit("log:classify" if tok.startswith("min=") else "log:" + tok)
+        if any(b.split(":")[0] in ("paste", "rev", "copy", "iadd", "classify") for b in m.branches):
             ctx.distinct(lines[-1])
         for sig, what in m.fails:
             small = prog
@@ -725,13 +940,14 @@ def run(ctx):
             if code_s[k] != (ws, we):
                 ctx.fail("C15:start-end-classification", f"start/end {code_s[k]} expected {(ws, we)}",
                          {"kind": "se", "ops": list(ops), "left": l, "right": r})
-    ctx.assumptions += [
+    ctx.assumptions = [a for a in ctx.assumptions if not a.startswith("[C15]")]
+    ctx.assumptions += ["[C15] " + a for a in [
         "order values, energies and the array-valued fields are small integers (exact as floats); no NaN order values",
         "`self += self` (iteration over the list being extended) is outside the model and not generated",
         "object identity is tracked for System objects and for the `order` list object; the arrays pos/vel/box and the "
         "temperature dict are only re-assigned, never mutated in place",
         "the order function passed to reverse reads only the field values of the System it is given",
-    ]
+    ]]
 
 
 def replay(ctx, obj):
